@@ -29,7 +29,7 @@ REQUIRED_OBS = ["must_verdicts", "must_not_verdicts", "repeat_frames", "raising_
                 "zone_to_ac_forwarding", "unsubscribed_silent", "double_subscription",
                 "after_reinit", "single_field_changes", "self_unsubscribed_in_callback",
                 "bound_method_subscribers", "subscribers_failing_when_called",
-                "same_callable_on_both_ac_channels"]
+                "same_callable_on_both_ac_channels", "subscriber_kept_across_reinit"]
 SOAK = True   # also judged by the whole-run monitors of the soak sessions (vf/soak.py)
 BUDGET = {"quick": 100, "thorough": 1500}
 
@@ -56,8 +56,13 @@ def run_case(case):
             viol.append({"mechanism": "init-failed-on-plain-console", "detail": {"ret": ok}})
             return
         at = w.at
+        early = None
         if case.get("reinit"):
-            # subscribers are attached to the objects of a SECOND init of the same client
+            # subscribers are attached to the objects of a SECOND init of the same client;
+            # one AirTouch-level subscriber was registered in the FIRST life already and is
+            # never taken off: the client object is the same, so it keeps being served
+            early = H.Sub(log, "at:early", hashv=rnd.getrandbits(20))
+            at.subscribe(early)
             await at.shutdown()
             await quiesce(loop)
             from ..refmodel import RefModel
@@ -97,6 +102,12 @@ def run_case(case):
 
         mk("at", at.airtouch_id, at, at.subscribe, at.unsubscribe)
         mk("at", at.airtouch_id, at, at.subscribe, at.unsubscribe)
+        if early is not None:
+            subs.append({"sub": early, "kind": "at", "ent": at.airtouch_id,
+                         "attach": lambda _x: at.subscribe(early),
+                         "detach": lambda _x: at.unsubscribe(early), "on": True, "twice": False,
+                         "early": True})
+            obs["subscriber_kept_across_reinit"] = 1
         zone_owner = {}
         for ac in at.air_conditioners:
             mk("ac", ac.ac_id, ac, ac.subscribe, ac.unsubscribe)
@@ -128,6 +139,8 @@ def run_case(case):
             for _ in range(rnd.randint(0, 3)):
                 toggle_dual(d)
         for s in subs:
+            if s.get("early"):
+                continue
             if rnd.random() < 0.85:
                 s["attach"](s["sub"])
                 s["on"] = True
